@@ -17,6 +17,18 @@ Theorem C01_reject :
     exists a', sem K toks spn n g ctx (cur s) (alt s) = Some (None, a').
 Proof. exact machine_err_is_peg. Qed.
 
+(* The specification is a function of (grammar, context, position, register): fuel only decides whether it is defined.
+   More fuel never changes an answer, and two defined answers agree whatever the fuels. *)
+Theorem C01_specification_monotone_in_fuel :
+  forall K toks spn n m g ctx p a r, n <= m ->
+    sem K toks spn n g ctx p a = Some r -> sem K toks spn m g ctx p a = Some r.
+Proof. exact sem_mono. Qed.
+
+Theorem C01_specification_is_deterministic :
+  forall K toks spn n m g ctx p a r r',
+    sem K toks spn n g ctx p a = Some r -> sem K toks spn m g ctx p a = Some r' -> r = r'.
+Proof. exact sem_deterministic. Qed.
+
 (* The PEG reading itself *)
 Theorem C01_choice_commits_to_first :
   forall K toks spn n x y ctx p a r a1,
@@ -92,6 +104,8 @@ Proof. vm_compute. reflexivity. Qed.
 
 Print Assumptions C01_accept_value_extent.
 Print Assumptions C01_reject.
+Print Assumptions C01_specification_monotone_in_fuel.
+Print Assumptions C01_specification_is_deterministic.
 Print Assumptions C01_choice_commits_to_first.
 Print Assumptions C01_choice_second_only_after_first_fails.
 Print Assumptions C01_choice_never_revisits.
